@@ -110,10 +110,13 @@ static void jb_size(jb_t *b, size_t v)
  * calls ...), in order; the engine appends it to the record as "ev":[...] even
  * when the operation aborted half way */
 static jb_t e_ev; static int e_evn;
+static const char *e_forced_outcome;
 static void ev_add(const char *fmt, ...) __attribute__((format(printf, 1, 2)));
 static void ev_add(const char *fmt, ...)
 {
     char tmp[256]; va_list ap;
+    /* a library gone wrong may call back millions of times in one operation: the record says so instead of listing them */
+    if (e_evn >= 50000) { if (e_evn == 50000) { jb_printf(&e_ev, ",[\"evflood\"]"); e_evn++; e_forced_outcome = "evflood"; } return; }
     va_start(ap, fmt); vsnprintf(tmp, sizeof tmp, fmt, ap); va_end(ap);
     jb_printf(&e_ev, "%s%s", e_evn++ ? "," : "", tmp);
 }
